@@ -702,6 +702,79 @@ def _():
     return [c['wf'], selfem, inQ, nh, accR, char, accN, fwd1, fwd, bwd1, bwd, fin]
 
 
+def ext_eq_c(lhs, rhs, hyps=(), tag=''):
+    c = fresh_z('c', T.Conf)
+    pw = ForAll([c], Select(lhs, c) == Select(rhs, c))
+    return [(tag + 'pointwise', list(hyps), pw), (tag + 'ext', [pw], lhs == rhs)]
+
+
+def _oa_setup():
+    P, P2 = SV(REC('PDA'), Const('P_', T.PDAs)), SV(REC('PDA'), Const('P2_', T.PDAs)); qa = Const('qa_', Atom)
+    eps = rec_get(P, 'epsilon').z
+    st = T.one_acc_struct(P, P2, qa)
+    c1, c2 = Consts('c1_ c2_', T.Conf); a = _a_
+    # the step relation of P2: a step of P, or (on epsilon) from an accepting state of P to qa with the stack untouched
+    new = And(a == eps, Select(rec_get(P, 'F').z, T._pc[2](c1)), c2 == T._pc[1](qa, T._pc[3](c1)))
+    stepchar = ForAll([c1, a, c2], T.pstep(P2, c1, a, c2) == Or(T.pstep(P, c1, a, c2), new))
+    stepQ = ForAll([c1, a, c2], Implies(T.pstep(P, c1, a, c2), And(Select(rec_get(P, 'Q').z, T._pc[2](c1)), Select(rec_get(P, 'Q').z, T._pc[2](c2)))))
+    u, q, v = Consts('u_ q_ v_', Atom)
+    sc1 = ('step-char-fwd', [st, T.pstep_body(P2, c1, a, c2, u, q, v)], Or(T.pstep_body(P, c1, a, c2, u, q, v), new))
+    sc2 = ('step-char-old', [st, T.pstep_body(P, c1, a, c2, u, q, v)], T.pstep_body(P2, c1, a, c2, u, q, v))
+    sc3 = ('step-char-new', [st, new], T.pstep_body(P2, c1, a, c2, eps, qa, eps))
+    sc = ('step-char', [ForAll([c1, a, c2, u, q, v], Implies(T.pstep_body(P2, c1, a, c2, u, q, v), Or(T.pstep_body(P, c1, a, c2, u, q, v), new))),
+                        ForAll([c1, a, c2, u, q, v], Implies(T.pstep_body(P, c1, a, c2, u, q, v), T.pstep_body(P2, c1, a, c2, u, q, v))),
+                        ForAll([c1, a, c2], Implies(new, T.pstep_body(P2, c1, a, c2, eps, qa, eps)))], stepchar)
+    return dict(P=P, P2=P2, qa=qa, eps=eps, st=st, stepchar=sc, pre=[sc1, sc2, sc3], stepQ=('step-in-Q', [st], stepQ), c1=c1, c2=c2)
+
+
+@proof('pdax', 'one-acc-eclo')
+def _():
+    d = _oa_setup(); P, P2, qa = d['P'], d['P2'], d['qa']; C = Const('C_', T.SetC)
+    facts = [d['st'], d['stepchar'][2], d['stepQ'][2], T._inQ(P, C)]
+    E1 = T.EcloP(P.z, C); E2 = T.EcloP(P2.z, C); X = T.ExtF(P.z, qa, E1)
+    Qc = Const('Qc_', T.SetC); cc = Const('cc_', T.Conf)
+    defQc = ForAll([cc], Select(Qc, cc) == Select(rec_get(P, 'Q').z, T._pc[2](cc)))
+    in1 = ('E1-in-Q', facts + [defQc, T.EcloP_least(P, C, Qc)], T._inQ(P, E1))
+    le = ('le', facts + [in1[2], T.EcloP_least(P2, C, X)], ForAll([cc], Implies(Select(E2, cc), Select(X, cc))))
+    ge1 = ('ge-1', facts + [T.EcloP_least(P, C, E2)], ForAll([cc], Implies(Select(E1, cc), Select(E2, cc))))
+    q = Const('q_', Atom); sw = Const('s_', Word)
+    ge2a = ('ge-2a', facts + [ge1[2], Select(rec_get(P, 'F').z, q), Select(E1, T._pc[1](q, sw)), T.pstep(P2, T._pc[1](q, sw), d['eps'], T._pc[1](qa, sw))], Select(E2, T._pc[1](qa, sw)))
+    ge2b0 = ('ge-2b0', [d['st'], Select(rec_get(P, 'F').z, q)], T.pstep_body(P2, T._pc[1](q, sw), d['eps'], T._pc[1](qa, sw), d['eps'], qa, d['eps']))
+    ge2b = ('ge-2b', [ge2b0[2]], T.pstep(P2, T._pc[1](q, sw), d['eps'], T._pc[1](qa, sw)))
+    ge2 = ('ge-2', [ge1[2], ForAll([q, sw], Implies(And(Select(rec_get(P, 'F').z, q), Select(E1, T._pc[1](q, sw))), Select(E2, T._pc[1](qa, sw))))], ForAll([cc], Implies(Select(X, cc), Select(E2, cc))))
+    return d['pre'] + [d['stepchar'], d['stepQ'], in1, le, ge1, ge2b0, ge2b, ge2a, ge2] + ext_eq_c(E2, X, [le[2], ge2[2]])
+
+
+@proof('pdax', 'one-acc-sim')
+def _():
+    d = _oa_setup(); P, P2, qa, eps = d['P'], d['P2'], d['qa'], d['eps']; Sg = Const('Sg_', T.SetA)
+    stb = T.one_acc_b(P.z, P2.z, qa); w = Const('w_', Word); a = _a_; wa = Word.snoc(w, a); cc = Const('cc_', T.Conf)
+    facts = [d['st'], stb, d['stepchar'][2], d['stepQ'][2], Not(Select(Sg, eps))]
+    R1 = lambda w: T.reachP(P.z, w); R2 = lambda w: T.reachP(P2.z, w)
+    Pw = lambda w: Implies(T.over(Sg, w), And(R2(w) == T.ExtF(P.z, qa, R1(w)), T._inQ(P, R1(w))))
+    init = z3.Store(z3.K(T.Conf, False), T._pc[1](rec_get(P, 'q0').z, Word.nil), True)
+    b0 = ('base-init', facts, T._inQ(P, init))
+    base = ('base', facts + [b0[2]], Pw(Word.nil))
+    S1 = T.stepsetP(P.z, R1(w), a); S2 = T.stepsetP(P2.z, R2(w), a)
+    ctx = facts + [Pw(w), T.over(Sg, wa)]
+    pre = ('step-pre', ctx, And(R2(w) == T.ExtF(P.z, qa, R1(w)), T._inQ(P, R1(w)), a != eps, Select(Sg, a)))
+    ss = ext_eq_c(S2, S1, facts + [pre[2]], 'step-stepset-')
+    sq = ('step-stepset-in-Q', facts + [pre[2]], T._inQ(P, S1))
+    stp = ('step', [stb, ss[1][2], sq[2], T.over(Sg, wa)], Pw(wa))
+    return d['pre'] + [d['stepchar'], d['stepQ'], b0, base, pre] + ss + [sq, stp]
+
+
+@proof('pdax', 'one-acc-lang')
+def _():
+    d = _oa_setup(); P, P2, qa, eps = d['P'], d['P2'], d['qa'], d['eps']; Sg = Const('Sg_', T.SetA); w = Const('w_', Word)
+    stb = T.one_acc_b(P.z, P2.z, qa)
+    sim = And(T.reachP(P2.z, w) == T.ExtF(P.z, qa, T.reachP(P.z, w)), T._inQ(P, T.reachP(P.z, w)))
+    s0 = ('sim', [stb, T.over(Sg, w), Not(Select(Sg, eps))], sim)
+    fwd = ('fwd', [d['st'], sim, T.pda_acc_z(P2, w)], T.pda_acc_z(P, w))
+    bwd = ('bwd', [d['st'], sim, T.pda_acc_z(P, w)], T.pda_acc_z(P2, w))
+    return [s0, fwd, bwd, ('final', [Implies(T.pda_acc_z(P2, w), T.pda_acc_z(P, w)), Implies(T.pda_acc_z(P, w), T.pda_acc_z(P2, w))], T.pda_acc_z(P2, w) == T.pda_acc_z(P, w))]
+
+
 def int_ind(P, lo=0):
     """induction on an integer >= lo: P(lo) and (j >= lo and P(j)) => P(j+1)"""
     j = fresh_z('j', z3.IntSort())
@@ -726,7 +799,7 @@ def prove_lemmas(theories, timeout=10):
     """-> list of (name, status, log); a lemma may use the def/lfp/assumed axioms of the selected theories and earlier lemmas"""
     from .smt import discharge
     obls = []
-    order = ['word', 'wordx', 'naming', 'dfa', 'nfa', 'dfax', 'nfax', 'regexp', 'nfastar', 'tm', 'pda', 'cfg', 'iso', 'subset']
+    order = ['word', 'wordx', 'naming', 'dfa', 'nfa', 'dfax', 'nfax', 'regexp', 'nfastar', 'tm', 'pda', 'pdax', 'cfg', 'iso', 'subset']
     ths = [t for t in order if t in theories] + [t for t in theories if t not in order]
     from .verify import DEPENDS
     def closure(t, out=None):
